@@ -5,6 +5,7 @@
   `util::transform_text`; `splitLines_glue` shows that the scanner splits exactly at `\n`, `\r` and `\r\n`.
 -/
 import VueJsx.Lemmas.TextLemmas
+import VueJsx.Element
 namespace VueJsx
 open Text
 
@@ -235,5 +236,57 @@ example : toLines " a\r\n   b\t".toList = (" a".toList, [(.crlf, "   b\t".toList
 example : toLines "x\r\r\ny".toList = ("x".toList, [(.cr, []), (.crlf, "y".toList)]) := by decide
 example : jsxRule [" a".toList, "   b\t".toList] = " a b ".toList := by decide
 example : unambiguous [(.cr, []), (.lf, [])] = false := by decide
+
+/-! ### the child list -/
+
+/-- the child shapes the parser produces -/
+def childOk : Node → Bool
+  | .mk .jsxText (_ :: _) _ => true
+  | .mk .jsxExprContainer _ [_] => true
+  | .mk .jsxSpreadChild _ [_] => true
+  | .mk .jsxElement _ _ => true
+  | .mk .jsxFragment _ _ => true
+  | _ => false
+
+/-- **Children are delivered in source order, each contributing on its own**: lowering the children `a ++ b` is lowering `a`,
+    then lowering `b` in the state `a` left behind, and the results are concatenated - for every list of (parser-shaped)
+    children, every option set and every state. -/
+theorem C02_children_in_order (o : Opts) (env : Env) (a b : List Node) (st : St) (ha : ∀ c ∈ a, childOk c = true) :
+    trChildList o env (a ++ b) st =
+      ((trChildList o env a st).1 ++ (trChildList o env b (trChildList o env a st).2).1,
+       (trChildList o env b (trChildList o env a st).2).2) := by
+  induction a generalizing st with
+  | nil => simp [trChildList]
+  | cons c rest ih =>
+    have hr : ∀ c ∈ rest, childOk c = true := fun x hx => ha x (by simp [hx])
+    have hc : childOk c = true := ha c (by simp)
+    obtain ⟨k, as, ks⟩ := c
+    unfold childOk at hc
+    split at hc <;> try (simp at hc; done)
+    case h_2 =>
+      rename_i e heq; cases heq
+      obtain ⟨ek, eas, eks⟩ := e
+      simp only [List.cons_append]
+      by_cases hk : ek = .jsxEmpty
+      · subst hk
+        rw [trChildList, trChildList]
+        exact ih _ hr
+      · have hne : ∀ (atoms : List String) (kids : List Node), ¬Node.mk ek eas eks = Node.mk K.jsxEmpty atoms kids := by
+          intro a k h; cases h; exact hk rfl
+        rw [trChildList, trChildList]
+        · simp only
+          repeat' split
+          all_goals simp [ih _ hr]
+        · exact hne
+        · exact hne
+    all_goals
+      rename_i heq; cases heq
+      simp only [List.cons_append]
+      rw [trChildList, trChildList]
+      simp only
+      repeat' split
+      all_goals simp [ih _ hr]
+
+example : ∀ c ∈ [Node.mk .jsxText ["a "] [], .mk .jsxExprContainer [] [.mk .ident ["x", "u"] []]], childOk c = true := by simp [childOk]
 
 end VueJsx
